@@ -486,3 +486,148 @@ Proof.
   destruct (hoist_loops_inversion g l (rev loops) l (length l) a b Ht (proj1 Ht) Hab Hba) as [r [Hr Hrest]].
   exists r. split; [apply in_rev; exact Hr | exact Hrest].
 Qed.
+
+(* ------------------------------------------------------------------------- *)
+(* brackets: Loop r1 .. Loop rn, Body, EndLoop rn .. EndLoop r1               *)
+(* ------------------------------------------------------------------------- *)
+
+Fixpoint chain_edges (c : list node) : list (node * node) :=
+  match c with
+  | a :: (b :: _) as t => (a, b) :: chain_edges t
+  | _ => []
+  end.
+
+(* every element of c is in l and precedes, in l, all later elements of c *)
+Fixpoint chainok (l c : list node) : Prop :=
+  match c with
+  | [] => True
+  | a :: t => In a l /\ (forall x, In x t -> prec l a x) /\ chainok l t
+  end.
+
+Lemma chain_sorted : forall l c, NoDup l ->
+  (forall a b, In (a, b) (chain_edges c) -> prec l a b) ->
+  (forall x, c = [x] -> In x l) -> chainok l c.
+Proof.
+  intros l c Hn. induction c as [|a t IH]; intros He H1; simpl; [exact I|].
+  destruct t as [|b t'].
+  - split; [apply H1; reflexivity|]. split; [intros x []| exact I].
+  - assert (Hab : prec l a b) by (apply He; simpl; tauto).
+    assert (Hok : chainok l (b :: t')).
+    { apply IH.
+      - intros x y Hxy. apply He. simpl. right. exact Hxy.
+      - intros x Hx. inversion Hx; subst. apply (prec_In _ _ _ Hab). }
+    split; [apply (prec_In _ _ _ Hab)|]. split; [|exact Hok].
+    intros x [E | Hx].
+    + subst. exact Hab.
+    + eapply prec_trans; [exact Hn | exact Hab|]. destruct Hok as [_ [Hb _]]. apply Hb. exact Hx.
+Qed.
+
+Lemma chainok_nodup : forall l c, NoDup l -> chainok l c -> NoDup c.
+Proof.
+  intros l c Hn. induction c as [|a t IH]; simpl; intros H; [constructor|].
+  destruct H as [_ [Ha Hok]]. constructor; [|apply IH; exact Hok].
+  intros Hi. eapply prec_irrefl; [exact Hn | apply Ha; exact Hi].
+Qed.
+
+Lemma filter_none : forall (f : node -> bool) l, (forall x, In x l -> f x = false) -> filter f l = [].
+Proof.
+  intros f. induction l as [|x t IH]; simpl; intros H; [reflexivity|].
+  rewrite (H x) by tauto. apply IH. intros y Hy. apply H. tauto.
+Qed.
+
+Lemma prec_split_back : forall l1 a l2 x, NoDup (l1 ++ a :: l2) -> prec (l1 ++ a :: l2) a x -> In x l2.
+Proof.
+  intros l1 a l2 x Hn H. apply prec_app in H. simpl in H.
+  assert (Ha1 : ~ In a l1).
+  { intros Hi. apply NoDup_remove_2 in Hn. apply Hn. apply in_app_iff. tauto. }
+  assert (Ha2 : ~ In a l2).
+  { intros Hi. apply NoDup_remove_2 in Hn. apply Hn. apply in_app_iff. tauto. }
+  destruct H as [H | [[[E I] | H] | [H _]]].
+  - apply prec_In in H. tauto.
+  - exact I.
+  - apply prec_In in H. tauto.
+  - tauto.
+Qed.
+
+Lemma nodup_app_r : forall (l1 l2 : list node), NoDup (l1 ++ l2) -> NoDup l2.
+Proof.
+  induction l1 as [|y l1 IH]; simpl; intros l2 H; [exact H|]. inversion H; subst. apply IH. assumption.
+Qed.
+
+Lemma nodup_app_disjoint : forall (l1 : list node) a l2 x, NoDup (l1 ++ a :: l2) -> In x l2 -> ~ In x l1.
+Proof.
+  induction l1 as [|y l1 IH]; simpl; intros a l2 x Hn H2 Hi; [exact Hi|].
+  inversion Hn as [|? ? Hy Hn']; subst. destruct Hi as [E | Hi].
+  - subst. apply Hy. apply in_app_iff. right. right. exact H2.
+  - eapply IH; eassumption.
+Qed.
+
+Lemma chainok_tail : forall l1 a l2 c, NoDup (l1 ++ a :: l2) ->
+  (forall x, In x c -> In x l2) -> chainok (l1 ++ a :: l2) c -> chainok l2 c.
+Proof.
+  intros l1 a l2 c Hn. induction c as [|b c IH]; simpl; intros Hin Hk; [exact I|].
+  destruct Hk as [_ [Hb Hk]]. split; [apply Hin; tauto|].
+  split; [|apply IH; [intros; apply Hin; tauto | exact Hk]].
+  intros x Hx. specialize (Hb x Hx). apply prec_app in Hb. simpl in Hb.
+  assert (Hb2 : In b l2) by (apply Hin; tauto).
+  assert (Hb1 : ~ In b l1) by (eapply nodup_app_disjoint; eassumption).
+  assert (Ha2 : ~ In a l2).
+  { intros Hi. apply NoDup_remove_2 in Hn. apply Hn. apply in_app_iff. tauto. }
+  destruct Hb as [Hb | [[[E I'] | Hb] | [Hb _]]].
+  - apply prec_In in Hb. tauto.
+  - subst. tauto.
+  - exact Hb.
+  - tauto.
+Qed.
+
+Lemma chainok_filter : forall c l, NoDup l -> chainok l c -> filter (fun x => memb x c) l = c.
+Proof.
+  induction c as [|a t IH]; intros l Hn Hok.
+  - apply filter_none. intros. reflexivity.
+  - simpl in Hok. destruct Hok as [Ha [Hprec Hok]].
+    destruct (in_split _ _ Ha) as [l1 [l2 Hl]]. subst l.
+    assert (Ha1 : ~ In a l1).
+    { intros Hi. apply NoDup_remove_2 in Hn. apply Hn. apply in_app_iff. tauto. }
+    assert (Ha2 : ~ In a l2).
+    { intros Hi. apply NoDup_remove_2 in Hn. apply Hn. apply in_app_iff. tauto. }
+    assert (Ht2 : forall x, In x t -> In x l2).
+    { intros x Hx. eapply prec_split_back; [exact Hn | apply Hprec; exact Hx]. }
+    assert (Ht1 : forall x, In x t -> ~ In x l1).
+    { intros x Hx. eapply nodup_app_disjoint; [exact Hn | apply Ht2; exact Hx]. }
+    assert (Hn2 : NoDup l2).
+    { apply nodup_app_r in Hn. inversion Hn; assumption. }
+    rewrite filter_app. simpl. rewrite Pos.eqb_refl. simpl.
+    rewrite (filter_none _ l1).
+    2:{ intros x Hx. simpl. apply orb_false_iff. split.
+        - apply Pos.eqb_neq. intros E. subst. tauto.
+        - apply memb_false. intros Hi. apply (Ht1 x Hi Hx). }
+    simpl. f_equal.
+    rewrite (filter_ext_in (fun x => Pos.eqb x a || memb x t) (fun x => memb x t)).
+    2:{ intros x Hx. replace (Pos.eqb x a) with false; [reflexivity|].
+        symmetry. apply Pos.eqb_neq. intros E. subst. tauto. }
+    apply IH; [exact Hn2|]. eapply chainok_tail; eassumption.
+Qed.
+
+(* any topological order of a graph holding the chain
+     Loop r1 -> .. -> Loop rn -> Body -> EndLoop rn -> .. -> EndLoop r1
+   opens the loops in loop order, has the update innermost and closes the loops in reverse order *)
+Theorem nest_brackets : forall g loops body ends l,
+  topo g l -> In body l ->
+  (forall a b, In (a, b) (chain_edges (chain loops body ends)) -> In (a, b) g) ->
+  filter (fun x => memb x (chain loops body ends)) l = chain loops body ends.
+Proof.
+  intros g loops body ends l [Hn He] Hb Hc.
+  apply chainok_filter; [exact Hn|].
+  apply chain_sorted; [exact Hn | intros a b Hab; apply He; apply Hc; exact Hab|].
+  intros x Hx. unfold chain in Hx.
+  destruct loops as [|r loops]; simpl in Hx.
+  - inversion Hx; subst. exact Hb.
+  - inversion Hx as [[E1 E2]]. destruct loops; discriminate.
+Qed.
+
+Lemma brackets_okb_iff : forall loops body ends l,
+  brackets_okb loops body ends l = true <->
+  length loops = length ends /\ filter (fun x => memb x (chain loops body ends)) l = chain loops body ends.
+Proof.
+  intros. unfold brackets_okb. rewrite andb_true_iff, Nat.eqb_eq, nodes_eqb_eq. tauto.
+Qed.
